@@ -16,7 +16,7 @@ import json
 import os
 from pathlib import Path
 
-from .. import taghist
+from .. import taghist, tagtx
 from ..core import ROOT, Check, Driver, HarnessError, ddmin, proof_stage
 
 PROP = "C12"
@@ -293,7 +293,56 @@ def corpus_cases():
     d = ROOT / "corpus" / PROP
     for f in sorted(d.glob("*.json")):
         c = json.loads(f.read_text())
+        if "stage" in c:
+            continue
         yield f.name, c["config"], c["layout"], c["ops"]
+
+
+def tx_corpus_cases():
+    d = ROOT / "corpus" / PROP
+    for f in sorted(d.glob("*.json")):
+        c = json.loads(f.read_text())
+        if c.get("stage") == "tx":
+            yield f.name, c["ops"]
+
+
+def tx_stage(chk: Check, rng, n: int, found: int):
+    """transactions x tags (harness/tagtx.py): oracle-judged histories with a block in one of the three modes"""
+    cases = [("corpus:" + name, ops) for name, ops in tx_corpus_cases()]
+    if os.environ.get("VERIF_SKIP_CORPUS"):
+        cases = []
+    ncorpus = len(cases)
+    cases += [(f"tx:{i}", tagtx.gen_case(rng)) for i in range(n)]
+    stats: dict[str, int] = {}
+    distinct = set()
+    for origin, ops in cases:
+        r = tagtx.execute(ops)
+        for k, v in r.stats.items():
+            stats[k] = stats.get(k, 0) + v
+        if r.stats.get("delete_tags_judged_with_carriers") and r.stats.get("tagged_write_in_block"):
+            distinct.add(tuple(ops))
+        if r.failures and found < 3:
+            found += 1
+            clause = r.failures[0]["clause"]
+            budget = [400]
+
+            def still(o):
+                if budget[0] <= 0:
+                    return False
+                budget[0] -= 1
+                rr = tagtx.execute(o)
+                return any(f["clause"] == clause for f in rr.failures)
+
+            small = ddmin(ops, still)
+            rr = tagtx.execute(small)
+            if not rr.failures:
+                raise HarnessError("a failing transaction case did not reproduce after shrinking")
+            chk.violation(
+                f"delete_tags contradicts the property ({clause}) after a committed transaction: {rr.failures[0]['what']} (transaction stage, history of {len(small)} commands)",
+                {"stage": "tx", "ops": small, "keys": tagtx.KEYS, "tags": tagtx.TAGS, "trace": rr.trace, "oracle_failures": rr.failures, "origin": origin,
+                 "replay_cmd": "./check C12 --replay <this file>"},
+                signature=None if clause == "exception" else f"{clause}-after-committed-transaction", no_input=(clause == "exception"))
+    return found, {"cases": len(cases), "corpus_cases": ncorpus, "distinct_judged_with_tagged_write_in_block": len(distinct), "states": stats}
 
 
 def run(chk: Check) -> int:
@@ -348,6 +397,10 @@ def run(chk: Check) -> int:
     for i in range(nnl):
         gen = taghist.gen_recreate if i % 2 else (lambda rng, l: taghist.gen_history(rng, l, 20))
         cases.append((f"newline:{i}", CFGS[i % len(CFGS)], "nl", gen(rng, layout("nl"))))
+
+    nlate = chk.budget(300, 5000)
+    for i in range(nlate):
+        cases.append((f"latereg:{i}", CFGS[i % len(CFGS)], "late", taghist.gen_latereg(rng, layout("late"))))
 
     exh_len = chk.budget(3, 4)
     exh, nalpha = exhaustive_cases(exh_len)
@@ -436,6 +489,7 @@ def run(chk: Check) -> int:
         found += 1
         chk.violation("delete_tags contradicts the property (complete) through the key-prefix middleware: a key written with a tag is still readable after "
                       f"delete_tags ({probe['observed']}; set_add and set_pop address different tag sets)", probe, signature="C12:add-prefix-middleware-renames-set-add-key")
+    found, tx_cov = tx_stage(chk, rng, chk.budget(600, 12000), found)
     dprobe = taghist.disabled_incr_probe()
     if dprobe is not None:
         found += 1
@@ -461,6 +515,8 @@ def run(chk: Check) -> int:
                 "opts (the layout strat with its functions decorated under the options that change the wrapping path: " + ", ".join(OPT_LAYOUTS) + " - upper=True, "
                 "lock=True, protected=False, time_condition=1s with bodies taking 0 / 1 / 1.125 / 2 s; histories from the strat and refresh generators and "
                 "directed simple-decorator cases), newline (layout nl: keys and tags containing line breaks, random and recreate histories), "
+                "latereg (layout late: register_tag calls as history events - a family of keys is used before its tag is registered, then reg, tagged write, "
+                "explicit removal, untagged re-creation, delete_tags), "
                 "refresh (a decorated call, time up to the window in which the decorator RE-WRITES the live entry - early: past early_ttl, soft: past soft_ttl, "
                 "hit / dynamic: update_after hits or more than cache_hits -, one to three re-writes with the same or another ttl, then time to around the "
                 "ORIGINAL deadline and the re-write's deadline, delete_tags of a tag of the call, probes and a further call; companions under the same tag "
@@ -484,6 +540,7 @@ def run(chk: Check) -> int:
                                "per-argument tag and probes; the generated histories of the other layouts are sampled, not exhaustive",
         "cases_by_stream": by_stream,
         "cases_by_wrapping_option": by_option,
+        "transaction_stage(oracle-judged)": tx_cov,
         "observed_not_judged": taghist.not_judged_probes(),
         "disabled_incr_probe": "a tagged incr that is disabled files no membership" if dprobe is None else dprobe,
         "prefix_middleware_probe": "delete_tags finds the members through add_prefix" if probe is None else probe,
@@ -512,6 +569,16 @@ def run(chk: Check) -> int:
 
 def replay(chk: Check, path: str) -> int:
     c = json.loads(Path(path).read_text())
+    if c.get("stage") == "tx":
+        r = tagtx.execute(c["ops"])
+        print("\n".join(r.trace))
+        for f in r.failures:
+            print("oracle:", f["clause"], f["what"])
+        if not r.failures:
+            print("replay: no disagreement")
+            return 0
+        print(f"VIOLATION property={PROP} replay={path}")
+        return 1
     r, answers = run_case(c["config"], c["layout"], c["ops"])
     dm, ds, gh = compare(r, answers)
     for (l, o), a in zip(r.eff, answers[1:]):
